@@ -661,7 +661,7 @@ class Interp(object):
             self.exec_block(st.orelse, fr)
 
     def iterate(self, v):
-        if isinstance(v, SymList):
+        if isinstance(v, (SymList, SymZip)):
             raise Unsupported("iteration over a symbolic list without a loop contract")
         if isinstance(v, Sym):
             raise Unsupported("iteration over symbolic scalar")
@@ -1585,6 +1585,8 @@ def _h_str(it, x=''):
 def _h_len(it, x):
     if isinstance(x, SymList):
         return x.length()
+    if isinstance(x, SymZip):
+        return x.length()
     if isinstance(x, AbstractSeq):
         return x.length
     if isinstance(x, Sym):
@@ -1779,7 +1781,29 @@ def _h_enumerate(it, xs, start=0):
     return list(enumerate(it.to_list(xs), start))
 
 
+class SymZip(object):
+    """zip(...) over lists of which at least one has a symbolic length: usable as the iterable of a loop under contract"""
+
+    def __init__(self, lists):
+        self.lists = lists
+
+    def length(self):
+        n = None
+        for x in self.lists:
+            ln = x.length() if isinstance(x, SymList) else len(x)
+            n = ln if n is None else sym.ite(ln < n, ln, n)
+        return n
+
+    def __getitem__(self, k):
+        return tuple(x[k] for x in self.lists)
+
+    def __iter__(self):
+        raise Unsupported("iteration over a zip of symbolic lists without a loop contract")
+
+
 def _h_zip(it, *xss, **kw):
+    if any(isinstance(x, SymList) for x in xss) and all(isinstance(x, (SymList, list, tuple)) for x in xss):
+        return SymZip(list(xss))
     return list(zip(*[it.to_list(x) for x in xss]))
 
 
